@@ -8,6 +8,8 @@ Numbers are exact rationals; the tolerance `f64::EPSILON` is `eps = 2^-52`.
 A Rust panic (slice index out of bounds) is an explicit outcome `Res.panic`; a returned
 `Err(_)` is `Res.err`. Core Lean only.
 -/
+import QmcModel.Common
+
 namespace Qmc
 
 inductive Res (α : Type) where
@@ -33,8 +35,6 @@ end Res
 
 /-- `f64::EPSILON` -/
 def eps : Rat := 1 / (2 ^ 52 : Nat)
-
-def absR (x : Rat) : Rat := if x < 0 then -x else x
 
 /-- number of iterations of `while x > 0 { x >>= 1; i += 1 }` -/
 def shiftCount : Nat → Nat
